@@ -129,15 +129,12 @@ def run(chk: Check) -> None:
         # cancellation of the input is tested before its result() is taken
         for c in calls_in_func(f, 'result'):
             src = norm(c.func.value)
-            nodes = cfg.nodes_containing(c)
-            tests = [t for t in cfg.nodes if t.kind == 'test' and norm(t.ast.test) == f'{src}.cancelled()']
-            ok = bool(tests) and all(cfg.must_pass(cfg.entry, [n], lambda m: m in tests) for n in nodes)
-            # and result() sits on the not-cancelled side
-            if ok:
-                for t in tests:
-                    cancelled_side = cfg.reachable([s for s, l in t.succ if l == 'true'], include_src=True)
-                    not_side = cfg.reachable([s for s, l in t.succ if l == 'false'], include_src=True)
-                    ok &= all(n.id in not_side and n.id not in cancelled_side for n in nodes)
+            # a must-fact at the read: ``cancelled()`` came out false on every way here (``if not x.cancelled():``, the else of
+            # ``if x.cancelled():`` and an early return after it all establish it; nothing between may run foreign code)
+            ffc = chk.ctx.facts.analyse(f)
+            key = ffc.canon.key(c.func.value)
+            nodes = ffc.cfg.nodes_containing(c)
+            ok = bool(nodes) and all(('F', f'{key}.cancelled()') in ffc.at_call(m, c) for m in nodes)
             chk.ob('FUT-cancel-before-result', f, ok, f'{src}.result() is taken only after {src}.cancelled() tested false '
                    '(result() of a cancelled future raises CancelledError, which capture_exceptions would turn into an exception, '
                    'not a cancellation)', node=c, kind='cancelled-tested-first')
@@ -155,10 +152,11 @@ def run(chk: Check) -> None:
     ok = len(rv_) == 1
     if ok:
         rv_ = rv_[0]
+        rk_ = uf.canon.key(ast.Name(id=rv_, ctx=ast.Load()))   # what the local stands for in the facts (``fut.result()``)
         def is_fut(fs):
-            return any((a[0] == 'isinst' and a[1] == rv_ and 'Future' in a[2]) or (a[0] == 'T' and a[1].startswith(f'isinstance({rv_},') and 'Future' in a[1]) for a in fs)
+            return any((a[0] == 'isinst' and a[1] in (rv_, rk_) and 'Future' in a[2]) or (a[0] == 'T' and a[1].startswith((f'isinstance({rv_},', f'isinstance({rk_},')) and 'Future' in a[1]) for a in fs)
         def not_fut(fs):
-            return any(a[0] == 'F' and a[1].startswith(f'isinstance({rv_},') and 'Future' in a[1] for a in fs)
+            return any(a[0] == 'F' and a[1].startswith((f'isinstance({rv_},', f'isinstance({rk_},')) and 'Future' in a[1] for a in fs)
         regs = [c for c in calls_in_func(un) if last_name(c) == 'add_done_callback' and norm(c.func.value) == rv_]
         dels = [c for c in calls_in_func(un) if last_name(c) == 'set_result' and [norm(a) for a in c.args] == [rv_]]
         ok = len(regs) == 1 and len(dels) == 1 and all(is_fut(fs) for _, fs in uf.site_facts(regs[0])) and all(not_fut(fs) for _, fs in uf.site_facts(dels[0]))
